@@ -1877,6 +1877,7 @@ impl Collection {
     /// `Precondition` here means a second writer and is not retried.
     async fn store_metadata_unclaimed(&self) -> Result<(), DBError> {
         let _gate = self.extension_write_gate.lock().await;
+        self.ensure_mutable()?;
         let mut metadata = self.metadata();
         // See `store_metadata`: the read-only flag is live handle state and is
         // never persisted.
@@ -2877,6 +2878,7 @@ impl Collection {
             return Ok(());
         }
         let _gate = self.watermark_gate.lock().await;
+        self.ensure_mutable()?;
         if id <= self.durable_alloc_watermark.load(Ordering::Acquire) {
             return Ok(());
         }
@@ -3098,6 +3100,9 @@ impl Collection {
         // remove of this id, or rolled-back index entries could diverge from
         // the stored document.
         let _doc_guard = self.doc_lock(id).lock().await;
+        // A handle retired or made read-only while this call was queued on the
+        // stripe must not write.
+        self.ensure_mutable()?;
 
         let (doc, ver) = self
             .storage
@@ -3316,6 +3321,9 @@ impl Collection {
 
         // Serialize mutations of the same document (see `doc_locks`).
         let _doc_guard = self.doc_lock(id).lock().await;
+        // A handle retired or made read-only while this call was queued on the
+        // stripe must not write.
+        self.ensure_mutable()?;
 
         let now_ms = unix_ms();
         let path = Self::doc_path(id);
